@@ -77,6 +77,29 @@ def kernelRecord (r : Record) : List Verdict × List String :=
       | some f, some (_, flag) => check "c01.lpcfits" (if flag then "1" else "0") f :: vs
       | _, _ => vs
     (vs, [s!"lpcerr.exactfits={fits}"])
+  | "fbuf" =>
+    -- `FrameBuf` filled block by block (Model/Source.lean): both delivery paths, state after every fill
+    let ch := r.nat "ch"
+    let bps := r.nat "bps"
+    let k := (bps + 7) / 8
+    let size := r.nat "size"
+    let lens := ((r.get "lens").splitOn ",").map fun t => t.toNat?.getD 0
+    let data := intList (r.get "data")
+    let render (fb : FrameBuf) : String :=
+      s!"{fb.filled}:{"/".intercalate ((List.range ch).map fun c => showInts (fb.channelSlice c))}"
+    let run (bytesPath : Bool) : String :=
+      match FrameBuf.withSize ch size with
+      | none => "nobuf"
+      | some fb0 =>
+        let (_, _, steps) := lens.foldl (fun (st : FrameBuf × List Int × List String) n =>
+          let (fb, rest, acc) := st
+          let block := rest.take (n * ch)
+          let r := if bytesPath then fb.fillLeBytes (block.flatMap (Rfc.toLeBytes k)) k else fb.fillInterleaved block
+          match r with
+          | .ok fb' => (fb', rest.drop (n * ch), acc ++ [render fb'])
+          | .error _ => (fb, rest.drop (n * ch), acc ++ ["err"])) (fb0, data, [])
+        ";".intercalate steps
+    ([check "c14.fbint" (run false) (r.get "impl_int"), check "c14.fbbytes" (run true) (r.get "impl_bytes")], [])
   | "ctx" =>
     -- `Context` fed block by block (Model/Encoder.lean `Ctx`): both delivery paths
     let ch := r.nat "ch"
